@@ -5,6 +5,7 @@ package main
 // pushed-back reader chain unless it is known to be exhausted (io.EOF).
 
 import (
+	"fmt"
 	"go/types"
 	"strings"
 
@@ -83,65 +84,227 @@ func c02IncludesSource(v ssa.Value, param *ssa.Parameter, depth int) bool {
 	return false
 }
 
-func c02CheckReadHeader(p *Prog, r *Report, fn *ssa.Function) {
-	name := FuncName(p, fn)
-	var src *ssa.Parameter
+// c02SrcRoots: the reader parameters of fn: by pointer (*io.Reader) or by value (io.Reader).
+func c02SrcRoots(fn *ssa.Function) (ptrs, vals []*ssa.Parameter) {
 	for _, pa := range fn.Params {
-		if c02IsIOReaderPtr(pa.Type()) && src == nil {
-			src = pa
+		switch {
+		case c02IsIOReaderPtr(pa.Type()):
+			ptrs = append(ptrs, pa)
+		case c02IsIOReader(pa.Type()):
+			vals = append(vals, pa)
 		}
 	}
-	res := fn.Signature.Results()
-	if src == nil || res.Len() == 0 || !types.Identical(res.At(res.Len()-1).Type(), types.Universe.Lookup("error").Type()) {
-		undecided("%s no longer takes the source as *io.Reader and returns an error last; the header rules cannot be applied", name)
+	return
+}
+
+// c02ContainsSrc: the reader value v still contains one of the source roots
+// of its function: it is the root (a load of the pointer parameter / the value
+// parameter), a phi all of whose edges contain it, or a standard wrapper
+// (io.MultiReader, io.LimitReader, io.TeeReader, bufio.NewReader…) around it.
+func c02ContainsSrc(v ssa.Value, ptrs, vals []*ssa.Parameter, depth int) bool {
+	if depth > 5 || v == nil {
+		return false
 	}
-	for _, rr := range refs(src) {
-		if _, ok := rr.(*ssa.MakeClosure); ok {
-			undecided("%s: the source pointer is captured by a closure; cannot follow", name)
+	for _, pa := range ptrs {
+		if c02LoadOf(v, pa) {
+			return true
 		}
 	}
-	var reads []*ssa.Call
-	var readErrs []ssa.Value
+	for _, pa := range vals {
+		if v == ssa.Value(pa) {
+			return true
+		}
+	}
+	switch x := v.(type) {
+	case *ssa.Phi:
+		n := 0
+		for _, e := range x.Edges {
+			if e == ssa.Value(x) {
+				continue
+			}
+			n++
+			if !c02ContainsSrc(e, ptrs, vals, depth+1) {
+				return false
+			}
+		}
+		return n > 0
+	case *ssa.MakeInterface:
+		return c02ContainsSrc(x.X, ptrs, vals, depth+1)
+	case *ssa.ChangeInterface:
+		return c02ContainsSrc(x.X, ptrs, vals, depth+1)
+	case *ssa.UnOp:
+		// load from a local cell (captured or address-taken reader variable)
+		if cell, ok := c02LocalCell(v); ok {
+			vs, zero := c02Reaching(x, cell)
+			if zero || len(vs) == 0 {
+				return false
+			}
+			for _, y := range vs {
+				if !c02ContainsSrc(y, ptrs, vals, depth+1) {
+					return false
+				}
+			}
+			return true
+		}
+	case *ssa.Call:
+		wrapper := callIs(x, "io", "", "MultiReader") || callIs(x, "io", "", "LimitReader") || callIs(x, "io", "", "TeeReader") ||
+			callIs(x, "bufio", "", "NewReader") || callIs(x, "bufio", "", "NewReaderSize") || callIs(x, "io", "", "NopCloser")
+		if !wrapper {
+			return false
+		}
+		for _, a := range x.Call.Args {
+			if c02ContainsSrc(a, ptrs, vals, depth+1) {
+				return true
+			}
+			// variadic: look into the argument slice
+			sl, ok := a.(*ssa.Slice)
+			if !ok {
+				continue
+			}
+			al, ok := sl.X.(*ssa.Alloc)
+			if !ok {
+				continue
+			}
+			for _, rr := range refs(al) {
+				ia, ok := rr.(*ssa.IndexAddr)
+				if !ok {
+					continue
+				}
+				for _, r2 := range refs(ia) {
+					if st, ok := r2.(*ssa.Store); ok && st.Addr == ssa.Value(ia) && c02ContainsSrc(st.Val, ptrs, vals, depth+1) {
+						return true
+					}
+				}
+			}
+		}
+	}
+	return false
+}
+
+// c02SrcSink is a place where a function hands on "the reader to continue
+// with": a store through its *io.Reader parameter, or a returned io.Reader.
+type c02SrcSink struct {
+	in       ssa.Instruction
+	keeps    bool // the value still contains the source
+	mayNotEO bool // reachable while the source is not known to have returned io.EOF
+}
+
+// c02SrcFlowResult is what c02SourceFlow establishes about one function that
+// reads from a source reader it was given.
+type c02SrcFlowResult struct {
+	undecided  string
+	discarded  ssa.Instruction // a read whose error result is never extracted
+	nReads     int
+	nRet       int
+	badReturns []string // returns of a nil error with a non-EOF read error pending
+	sinks      []c02SrcSink
+	helpers    []*c02SrcFlowResult // read helpers it delegates to (already judged)
+	fn         *ssa.Function
+}
+
+// c02SourceFlow: the may-flow "a read error that was not established to be
+// nil or io.EOF is pending" over fn, whose source is any of its reader
+// parameters. Reads are io.Reader.Read invokes, io.ReadFull/ReadAtLeast, and
+// calls to same-package helpers that receive the source and return an error
+// last (judged recursively by the same flow).
+func c02SourceFlow(p *Prog, fn *ssa.Function, depth int) *c02SrcFlowResult {
+	res := &c02SrcFlowResult{fn: fn}
+	name := c02Name(p, fn)
+	ptrs, vals := c02SrcRoots(fn)
+	sig := fn.Signature.Results()
+	errT := types.Universe.Lookup("error").Type()
+	if len(ptrs)+len(vals) == 0 {
+		res.undecided = name + " has no io.Reader / *io.Reader parameter; the source cannot be identified"
+		return res
+	}
+	if sig.Len() == 0 || !types.Identical(sig.At(sig.Len()-1).Type(), errT) {
+		res.undecided = name + " reads from the source but does not return an error last; where its read errors go cannot be followed"
+		return res
+	}
+	for _, pa := range ptrs {
+		for _, rr := range refs(pa) {
+			if _, ok := rr.(*ssa.MakeClosure); ok {
+				res.undecided = name + ": the source pointer is captured by a closure; cannot follow"
+				return res
+			}
+		}
+	}
+	isSrc := func(v ssa.Value) bool { return c02ContainsSrc(v, ptrs, vals, 0) }
+	type readEv struct {
+		in  ssa.Instruction
+		err ssa.Value
+	}
+	var reads []readEv
 	var stores []*ssa.Store
 	allInstrs(fn, func(in ssa.Instruction) {
+		if res.undecided != "" {
+			return
+		}
 		switch x := in.(type) {
 		case *ssa.Call:
 			cc := x.Common()
 			switch {
-			case cc.IsInvoke() && cc.Method.Name() == "Read" && c02LoadOf(cc.Value, src):
-				reads = append(reads, x)
-			case (callIs(x, "io", "", "ReadFull") || callIs(x, "io", "", "ReadAtLeast")) && len(cc.Args) > 0 && c02LoadOf(cc.Args[0], src):
-				reads = append(reads, x)
+			case cc.IsInvoke() && cc.Method.Name() == "Read" && isSrc(cc.Value):
+				reads = append(reads, readEv{x, callResult(x, 1)})
+			case (callIs(x, "io", "", "ReadFull") || callIs(x, "io", "", "ReadAtLeast")) && len(cc.Args) > 0 && isSrc(cc.Args[0]):
+				reads = append(reads, readEv{x, callResult(x, 1)})
 			default:
+				passes := false
 				for _, a := range cc.Args {
-					if a == ssa.Value(src) || (c02LoadOf(a, src) && !callIs(x, "io", "", "MultiReader")) {
-						if c02IncludesSource(x, src, 0) {
-							continue
+					if isSrc(a) {
+						passes = true
+					}
+					for _, pa := range ptrs {
+						if a == ssa.Value(pa) {
+							passes = true
 						}
-						undecided("%s hands the source reader to %s; its errors cannot be followed", name, cc.Value.Name())
 					}
 				}
+				if !passes || isSrc(x) {
+					return // not handed on, or a wrapper whose result contains the source
+				}
+				h := staticCallee(x)
+				if h != nil && p.InModule(h) && len(h.Blocks) > 0 && depth < 3 {
+					c02LabelHelper(p, h, "read helper")
+					hr := c02SourceFlow(p, h, depth+1)
+					if hr.undecided != "" {
+						res.undecided = hr.undecided
+						return
+					}
+					res.helpers = append(res.helpers, hr)
+					n := x.Call.Signature().Results().Len()
+					reads = append(reads, readEv{x, callResult(x, n-1)})
+					return
+				}
+				res.undecided = fmt.Sprintf("%s hands the source reader to %s; its errors cannot be followed", name, cc.Value.Name())
 			}
 		case *ssa.Store:
-			if x.Addr == ssa.Value(src) {
-				stores = append(stores, x)
+			for _, pa := range ptrs {
+				if x.Addr == ssa.Value(pa) {
+					stores = append(stores, x)
+				}
 			}
 		}
 	})
-	if len(reads) == 0 {
-		undecided("%s: no read from the source reader recognised", name)
+	if res.undecided != "" {
+		return res
 	}
+	res.nReads = len(reads)
+	if len(reads) == 0 {
+		res.undecided = name + ": no read from the source reader recognised"
+		return res
+	}
+	var readErrs []ssa.Value
 	for _, rd := range reads {
-		e := callResult(rd, 1)
-		if e == nil {
-			r.Violation("C02.H1-header-read-error-returned", name+" source error returned", p.Pos(rd.Pos()),
-				"the error result of the read from the source is discarded while reading the header")
-			return
+		if rd.err == nil {
+			res.discarded = rd.in
+			return res
 		}
-		if !c02StoredOnlyToLocalCells(e) {
-			undecided("%s keeps the source error in a memory cell that escapes; the path rules cannot follow it", name)
+		if !c02StoredOnlyToLocalCells(rd.err) {
+			res.undecided = name + " keeps the source error in a memory cell that escapes; the path rules cannot follow it"
+			return res
 		}
-		readErrs = append(readErrs, e)
+		readErrs = append(readErrs, rd.err)
 	}
 	const (
 		rdp     = 1 // a read error that is neither nil nor io.EOF may be pending
@@ -151,7 +314,7 @@ func c02CheckReadHeader(p *Prog, r *Report, fn *ssa.Function) {
 	)
 	isRead := map[ssa.Instruction]bool{}
 	for _, x := range reads {
-		isRead[x] = true
+		isRead[x.in] = true
 	}
 	ff := &FlagFlow{Fn: fn, Must: false, Entry: 1 << noteof}
 	ff.Transfer = func(in ssa.Instruction, st uint64) uint64 {
@@ -177,6 +340,17 @@ func c02CheckReadHeader(p *Prog, r *Report, fn *ssa.Function) {
 					return s
 				}
 				return (s &^ rdp) | isnil
+			})
+		}
+		if v, kind, ok := c02PredTest(p, from, to); ok && c02XCarriesAny(v, readErrs) && c02XPure(v, readErrs) {
+			return mapStates(st, func(s int) int {
+				if s&badsent != 0 {
+					return s
+				}
+				if kind == 3 {
+					return (s &^ rdp) | isnil
+				}
+				return s &^ rdp
 			})
 		}
 		if v, sent, ok := c02SentinelTest(from, to); ok && c02XCarriesAny(v, readErrs) {
@@ -209,21 +383,42 @@ func c02CheckReadHeader(p *Prog, r *Report, fn *ssa.Function) {
 		}
 		return false
 	}
-
-	// H1: returns
-	var bad []string
-	nRet := 0
 	ff.AtReturns(func(ret *ssa.Return, st uint64) {
 		if len(ret.Results) == 0 {
 			return
 		}
-		nRet++
+		res.nRet++
+		// returned readers are sinks
+		errRes := ret.Results[len(ret.Results)-1]
+		errNonNil := true
+		if vs, zero := c02Expand(errRes); zero || len(vs) == 0 {
+			errNonNil = false
+		} else {
+			for _, x := range vs {
+				if !(c02ErrShapeNonNil(x) || c02CarriesAny(x, readErrs)) {
+					errNonNil = false
+				}
+			}
+		}
+		for i, rv := range ret.Results {
+			if i == len(ret.Results)-1 || !c02IsIOReader(sig.At(i).Type()) || c02XAllNil(rv) || errNonNil {
+				continue // an error return: the caller does not go on reading
+			}
+			if mi, ok := rv.(*ssa.MakeInterface); ok {
+				if pt, ok := mi.X.Type().Underlying().(*types.Pointer); ok {
+					if n, ok := types.Unalias(pt.Elem()).(*types.Named); ok && n.Obj().Name() == "PipeReader" {
+						continue // the output stream, not the source
+					}
+				}
+			}
+			res.sinks = append(res.sinks, c02SrcSink{ret, isSrc(rv), anyState(st, noteof)})
+		}
 		if !anyState(st, rdp) {
 			return
 		}
 		e := ret.Results[len(ret.Results)-1]
 		if c02XAllNil(e) {
-			bad = append(bad, p.Pos(ret.Pos()))
+			res.badReturns = append(res.badReturns, p.Pos(ret.Pos()))
 			return
 		}
 		if phi, ok := e.(*ssa.Phi); ok {
@@ -233,30 +428,74 @@ func c02CheckReadHeader(p *Prog, r *Report, fn *ssa.Function) {
 				}
 				pred := phi.Block().Preds[i]
 				if o, vis := ff.Out(pred); vis && anyState(ff.EdgeTransfer(pred, phi.Block(), o), rdp) {
-					bad = append(bad, p.Pos(ret.Pos()))
+					res.badReturns = append(res.badReturns, p.Pos(ret.Pos()))
 				}
 			}
 		}
 	})
-	r.Check(len(bad) == 0 && nRet > 0, "C02.H1-header-read-error-returned", name+" source error returned", p.Pos(fn.Pos()),
-		"every return reached with a non-EOF read error pending returns an error",
-		"the header reader can return success (nil error, at "+strings.Join(c02Uniq(bad), ", ")+") although a read from the source returned an error that was not established to be io.EOF: an error delivered together with the bytes that complete the header (a short document handed over in one Read with, say, a checksum or transport failure) is dropped and never surfaces — not from Decrypt and, unless the source repeats it, not on the output stream. Only io.EOF may be discarded; any other read error must be returned")
-
-	// H2: the source stays in the chain
-	n := 0
 	for _, st := range stores {
-		n++
-		keeps := c02IncludesSource(st.Val, src, 0)
 		before, reach := ff.Before(st)
 		if !reach {
 			continue
 		}
-		r.Check(keeps || !anyState(before, noteof), "C02.H2-header-keeps-source", name+" push-back keeps the source", p.Pos(st.Pos()),
-			"the reader stored back into the source pointer still contains the source (or the source is known to have returned io.EOF)",
-			"the source reader is replaced by a reader that no longer contains it on a path on which its last error was not established to be io.EOF (a nil test or `err != nil` is not enough): the source is never read again, so a pending or later error of the source — and any data after the buffered bytes — is silently dropped and the decrypted stream can end in a clean EOF")
+		res.sinks = append(res.sinks, c02SrcSink{st, isSrc(st.Val), anyState(before, noteof)})
+	}
+	return res
+}
+
+// c02ReportSourceFlow turns a flow result into obligations of rule `rule`
+// (H1 for header readers, T3 for read helpers of the segment loop); helpers
+// are reported under their own names. Returns false if nothing could be decided.
+func c02ReportSourceFlow(p *Prog, r *Report, res *c02SrcFlowResult, rule, what string) {
+	name := c02Name(p, res.fn)
+	for _, h := range res.helpers {
+		c02ReportSourceFlow(p, r, h, rule, what)
+	}
+	if res.undecided != "" {
+		r.Undecide("%s", res.undecided)
+		return
+	}
+	construct := name + " source error returned"
+	if res.discarded != nil {
+		r.Violation(rule, construct, p.Pos(instrPos(res.discarded)),
+			"the error result of the read from the source is discarded "+what)
+		return
+	}
+	r.Check(len(res.badReturns) == 0 && res.nRet > 0, rule, construct, p.Pos(res.fn.Pos()),
+		"every return reached with a non-EOF read error pending returns an error",
+		name+" can return success (nil error, at "+strings.Join(c02Uniq(res.badReturns), ", ")+") although a read from the source returned an error that was not established to be io.EOF: an error delivered together with data (a short document handed over in one Read with, say, a checksum or transport failure) is dropped "+what+" and never surfaces — not from Decrypt and, unless the source repeats it, not on the output stream. Only io.EOF may be discarded; any other read error must be returned")
+}
+
+func c02CheckReadHeader(p *Prog, r *Report, fn *ssa.Function) {
+	name := c02Name(p, fn)
+	res := c02SourceFlow(p, fn, 0)
+	c02ReportSourceFlow(p, r, res, "C02.H1-header-read-error-returned", "while reading the header")
+	if res.undecided != "" || res.discarded != nil {
+		return
+	}
+	// H2: the source stays in the chain
+	n := 0
+	var sinks []c02SrcSink
+	var gather func(q *c02SrcFlowResult)
+	gather = func(q *c02SrcFlowResult) {
+		sinks = append(sinks, q.sinks...)
+		for _, h := range q.helpers {
+			gather(h)
+		}
+	}
+	gather(res)
+	for _, sk := range sinks {
+		n++
+		how := "stored back into the source pointer"
+		if _, isRet := sk.in.(*ssa.Return); isRet {
+			how = "returned as the reader to continue with"
+		}
+		r.Check(sk.keeps || !sk.mayNotEO, "C02.H2-header-keeps-source", name+" push-back keeps the source", p.Pos(instrPos(sk.in)),
+			"the reader "+how+" still contains the source (or the source is known to have returned io.EOF)",
+			"the source reader is replaced ("+how+") by a reader that no longer contains it on a path on which its last error was not established to be io.EOF (a nil test or `err != nil` is not enough): the source is never read again, so a pending or later error of the source — and any data after the buffered bytes — is silently dropped and the decrypted stream can end in a clean EOF")
 	}
 	if n == 0 {
-		r.Trivial("C02.H2-header-keeps-source", name+" push-back keeps the source", p.Pos(fn.Pos()), "the source pointer is never overwritten")
+		r.Trivial("C02.H2-header-keeps-source", name+" push-back keeps the source", p.Pos(fn.Pos()), "the source reader is never replaced")
 	}
 }
 
@@ -386,4 +625,18 @@ func c02StoredOnlyToLocalCells(v ssa.Value) bool {
 		}
 	}
 	return true
+}
+
+// c02Ret returns the i-th value a Return returns, looking through the result
+// cell go/ssa introduces in functions that have a defer (`*cell = x;
+// rundefers; t = *cell; return t`): the stored x instead of the load.
+func c02Ret(ret *ssa.Return, i int) ssa.Value {
+	v := ret.Results[i]
+	if cell, ok := c02LocalCell(v); ok {
+		vals, zero := c02Reaching(v.(*ssa.UnOp), cell)
+		if len(vals) == 1 && !zero {
+			return vals[0]
+		}
+	}
+	return v
 }
